@@ -28,7 +28,7 @@ func (r *c15Run) trace() map[string]any {
 		h[i] = o.String()
 	}
 	return map[string]any{
-		"perspective": map[bool]string{true: "server", false: "client"}[r.server],
+		"perspective":       map[bool]string{true: "server", false: "client"}[r.server],
 		"max_incoming_bidi": r.maxIn[c15Bidi], "max_incoming_uni": r.maxIn[c15Uni],
 		"ops": r.hist, "history": strings.Join(h, " "),
 	}
@@ -105,7 +105,8 @@ func c15OutAlphabet(t int) []c15Sym {
 			n := len(r.out[t].waiters)
 			return c15Op{K: "csync", T: t, W: n - 1}, n >= 2
 		}},
-		{"race+1", func(r *c15Run) (c15Op, bool) { return c15Op{K: "race", T: t, N: 1}, true }},
+		{"race+1", func(r *c15Run) (c15Op, bool) { return c15Op{K: "race", T: t, N: 1, W: len(r.hist) & 1}, true }},
+		{"jump+1", func(r *c15Run) (c15Op, bool) { return c15Op{K: "jump", T: t, N: 1}, true }},
 		{"del", func(r *c15Run) (c15Op, bool) { return c15Op{K: "del", T: t, I: 1, N: lowestLive(r)}, true }},
 		{"self-valid", func(r *c15Run) (c15Op, bool) {
 			return c15Op{K: "frame", T: t, I: 1, F: c15FMaxData, N: r.out[t].opened}, r.out[t].opened > 0
@@ -139,12 +140,18 @@ func c15InAlphabet(t int) []c15Sym {
 		return
 	}
 	return []c15Sym{
-		{"next", func(r *c15Run) (c15Op, bool) { return c15Op{K: "frame", T: t, F: c15FStream, N: r.in[t].opened + 1}, true }},
-		{"skip", func(r *c15Run) (c15Op, bool) { return c15Op{K: "frame", T: t, F: c15FReset, N: r.in[t].opened + 2}, true }},
+		{"next", func(r *c15Run) (c15Op, bool) {
+			return c15Op{K: "frame", T: t, F: c15FStream, N: r.in[t].opened + 1}, true
+		}},
+		{"skip", func(r *c15Run) (c15Op, bool) {
+			return c15Op{K: "frame", T: t, F: c15FReset, N: r.in[t].opened + 2}, true
+		}},
 		{"at-limit", func(r *c15Run) (c15Op, bool) {
 			return c15Op{K: "frame", T: t, F: c15FDataBlocked, N: r.in[t].advertised}, r.in[t].advertised > 0
 		}},
-		{"beyond", func(r *c15Run) (c15Op, bool) { return c15Op{K: "frame", T: t, F: c15FStream, N: r.in[t].advertised + 1}, true }},
+		{"beyond", func(r *c15Run) (c15Op, bool) {
+			return c15Op{K: "frame", T: t, F: c15FStream, N: r.in[t].advertised + 1}, true
+		}},
 		{"first", func(r *c15Run) (c15Op, bool) { return c15Op{K: "frame", T: t, F: c15FReset, N: 1}, r.in[t].opened > 0 }},
 		{"send-side", func(r *c15Run) (c15Op, bool) {
 			// bidi: opens the stream implicitly; uni: wrong direction
@@ -346,9 +353,9 @@ type c15Weighted struct {
 }
 
 var c15Profiles = map[string][]c15Weighted{
-	"mix": {{"open", 8}, {"sync", 8}, {"csync", 4}, {"race", 2}, {"max", 9}, {"tp", 1}, {"acc", 8}, {"bacc", 3}, {"cacc", 2},
+	"mix": {{"open", 8}, {"sync", 8}, {"csync", 4}, {"race", 2}, {"jump", 1}, {"max", 9}, {"tp", 1}, {"acc", 8}, {"bacc", 3}, {"cacc", 2},
 		{"frame", 24}, {"del", 13}, {"reset0", 1}, {"usereset", 2}, {"close", 1}},
-	"fifo": {{"open", 5}, {"sync", 32}, {"csync", 9}, {"race", 9}, {"max", 26}, {"tp", 1}, {"frame", 4}, {"del", 8}},
+	"fifo": {{"open", 5}, {"sync", 32}, {"csync", 9}, {"race", 9}, {"jump", 5}, {"max", 26}, {"tp", 1}, {"frame", 4}, {"del", 8}},
 }
 
 func c15RandomHistory(rng *rand.Rand, prof string, st c15Stats) *c15Run {
@@ -420,11 +427,20 @@ func c15RandomOp(rng *rand.Rand, r *c15Run, k, prof string) c15Op {
 		if len(o.waiters) > 0 {
 			op.W = rng.IntN(len(o.waiters))
 		}
+	case "jump":
+		if len(o.waiters) == 0 {
+			t = 1 - t
+			op.T, o = t, &r.out[t]
+		}
+		if len(o.waiters) > 0 {
+			op.N = 1 + rng.IntN(len(o.waiters))
+		}
 	case "race":
 		if len(o.waiters) == 0 {
 			t = 1 - t
 			op.T, o = t, &r.out[t]
 		}
+		op.W = rng.IntN(2)
 		op.N = 1 + rng.IntN(3)
 		if rng.IntN(3) == 0 && len(o.waiters) > 0 {
 			op.N = len(o.waiters) - 1 + rng.IntN(2) // around "just enough for the rest"
